@@ -10,3 +10,4 @@ for P in "$@"; do
 done
 git -C /repo checkout -- .
 git -C /repo status --short | head
+python3 /verif/lib/gen_consts.py
